@@ -140,8 +140,17 @@ def _gen_case(rng, t):
         rounds = [rest] if rng.random() < 0.5 or len(rest) < 2 else [rest[: len(rest) // 2], rest[len(rest) // 2:]]
         case.update({"order": succ[:n_init] + rest, "n_init": n_init, "rounds": rounds, "fail": sorted(fail),
                      "ff": rng.choice(["min", "min", "mean"])})
-    elif r < 0.7:
-        case["route"] = "fit_surrogate"     # CBO.fit_surrogate(DataFrame) instead of search(): the other place that negates
+    elif r < 0.75:
+        # CBO.fit_surrogate(DataFrame) instead of search(): the other place that negates.  The checkpoint holds every candidate; its size
+        # is below, at or above the search's n_initial_points (loading a checkpoint must fit the surrogate whatever its size), and some
+        # rows may be failed evaluations
+        case["route"] = "fit_surrogate"
+        case["n_initial_points"] = rng.choice([K, K, 10, K + 3, 30, 1])
+        if K >= 4 and rng.random() < 0.35:
+            nf = rng.randint(1, K - 1) if rng.random() < 0.3 else rng.randint(1, max(1, K // 3))
+            fail = rng.sample(range(K), nf)
+            succ = [c for c in order if c not in fail]
+            case.update({"order": succ + sorted(fail), "fail": sorted(fail), "ff": rng.choice(["min", "min", "mean"])})
     if nobj >= 2 and not case["fail"] and rng.random() < 0.2:
         # moo_lower_bounds: region of interest for some objectives (penalty after scaling); bound at a quantile of the values
         lb = []
@@ -236,7 +245,7 @@ class _Spies:
                     mu, sd = model.predict(X, return_std=True)
                 cands = rec["rvs"][-1] if rec["rvs"] else []
                 rec["acq"].append({"mu": np.array(mu, dtype=float).tolist(), "sd": np.array(sd, dtype=float).tolist(),
-                                   "kappa": float(kwa.get("kappa", 1.96)), "acq_func": acq_func,
+                                   "kappa": float(kwa.get("kappa", 1.96)), "acq_func": acq_func, "y_opt": None if b.arguments.get("y_opt") is None else float(b.arguments["y_opt"]),
                                    "values": np.array(v, dtype=float).tolist(), "cands": [int(x[0]) for x in cands]})
             except Exception as e:
                 rec["spy_error"].append("acquisition spy: " + repr(e))
@@ -327,7 +336,7 @@ def _observe(case):
                 surrogate_model=case["surrogate"], surrogate_model_kwargs=kw,
                 acq_func=case["acq"], kappa=0.0, xi=0.0, acq_optimizer="sampling",
                 scheduler={"type": "periodic-exp-decay", "period": 10, "rate": 0.0},
-                n_initial_points=n_init, initial_points=[{"a": int(a)} for a in case["order"][:n_init]],
+                n_initial_points=int(case.get("n_initial_points", n_init)), initial_points=[{"a": int(a)} for a in case["order"][:n_init]],
                 n_points=60 + 10 * K, filter_duplicated=False, objective_scaler=case["scaler"],
                 moo_scalarization_strategy=strategy, moo_scalarization_weight=case["weights"],
                 filter_failures=case.get("ff", "min"), moo_lower_bounds=case.get("bounds"),
@@ -336,14 +345,18 @@ def _observe(case):
             if case.get("route") == "fit_surrogate":
                 import pandas as pd
 
+                fails = set(case.get("fail", []))
+                # as read from results.csv: with failed rows the objective columns are strings
+                cell = (lambda a, i: "F" if a in fails else repr(float(case["objs"][a][i]))) if fails else (lambda a, i: float(case["objs"][a][i]))
                 cols = {"p:a": [int(a) for a in case["order"]]}
                 if case["nobj"] == 0:
-                    cols["objective"] = [float(case["objs"][a][0]) for a in case["order"]]
+                    cols["objective"] = [cell(a, 0) for a in case["order"]]
                 else:
                     for i in range(case["nobj"]):
-                        cols[f"objective_{i}"] = [float(case["objs"][a][i]) for a in case["order"]]
+                        cols[f"objective_{i}"] = [cell(a, i) for a in case["order"]]
                 search.fit_surrogate(pd.DataFrame(cols))
-                told = [int(a) for a in case["order"]]
+                # fit_surrogate tells the valid rows first, then the failed ones
+                told = [int(a) for a in case["order"] if a not in fails] + [int(a) for a in case["order"] if a in fails]
             else:
                 res = search.search(max_evals=n_init)
                 told = [int(v) for v in res["p:a"].tolist()]
@@ -544,6 +557,9 @@ def _judge_fit(ck, case, obs, rep, eff, i, failed_before, pending):
     ascale = max(max(abs(v) for v in vals), 1e-300)
     if len(acq) != len(vals) or not all(_close(x, y, ascale, 1e-12) for x, y in zip(acq, vals)):
         ck.mismatch(case, {"what": "acquisition values differ from mu - kappa*std", "kappa": a["kappa"], "fit": i})
+    if a.get("y_opt") is not None and not _close(a["y_opt"], min(y_fit), scale, 1e-12):
+        ck.mismatch(case, {"what": "the incumbent y_opt passed to the acquisition is not the minimum of the fitted targets", "y_opt": a["y_opt"],
+                           "min_target": min(y_fit), "max_target": max(y_fit), "fit": i})
     if a["kappa"] != 0.0:
         ck.mismatch(case, {"what": "kappa reaching the acquisition is not the 0 that was configured", "kappa": a["kappa"]})
     if a["acq_func"] != {"UCB": "LCB", "UCBd": "LCBd"}[case["acq"]]:
@@ -607,6 +623,11 @@ def _judge_fit(ck, case, obs, rep, eff, i, failed_before, pending):
     detail = dict(base_detail)
     detail.update({"proposal": prop})
     if not contract_met or not succ_present:
+        return None
+    if (fail & set(ids)) and tmax_s - tmin_s <= 1e-9 * scale:
+        # every success has the same target (e.g. a single success): the imputed value ties with it by definition of the "min" / "mean"
+        # policies, the arg-min among ties is arbitrary (C05_failures_choice: a failed proposal implies such a tie)
+        ck.count("proposal:all-successes-tie-with-the-failures")
         return None
     if score is not None:
         # verdict by the verified checker `checkChoice` (theorem C05_checker) on the real proposal
@@ -931,6 +952,85 @@ def _judge_mono(ck, case, obs, eff):
                 {"proposals": a, "late_mean": mean_late, "midpoint": mid})
 
 
+# --------------------------------------------------------------------------- continuous monotone problem, improvement-based acquisitions
+
+_CONT = {}
+
+
+async def _run_cont(job):
+    return _CONT["scale"] * (float(job.parameters["x"]) + _CONT["offset"])
+
+
+def _cont_case(rng, t):
+    """f(x) = scale * (x + offset) on [0, 10], exploitation settings of every acquisition that has one (kappa = 0 / xi = 0, constant
+    scheduler), forests; on a continuous domain the predictive std is > 0 between the observations, so EI / PI are informative"""
+    r = t % 6
+    sur, acq = [("RF", "PI"), ("RF", "PId"), ("RF", "EI"), ("RF", "EId"), ("ET", rng.choice(["PI", "EI", "PId", "EId"])),
+                (rng.choice(["ET", "RF"]), rng.choice(["UCB", "UCBd"]))][r]
+    return {"cont": True, "surrogate": sur, "acq": acq,
+            "offset": rng.choice([-100.0, 50.0, 0.0, 1000.0, -5.0]), "scale": rng.choice([1.0, 0.01, 100.0]), "seed": rng.randrange(1 << 20),
+            "n_evals": 40, "n_initial": 8}
+
+
+def _const_scheduler(i, eta_0, **kwargs):
+    return eta_0
+
+
+def _observe_cont(case):
+    import warnings
+
+    warnings.filterwarnings("ignore")
+    from deephyper.evaluator import Evaluator
+    from deephyper.hpo import CBO, HpProblem
+
+    _CONT.update({"scale": case["scale"], "offset": case["offset"]})
+    problem = HpProblem()
+    problem.add_hyperparameter((0.0, 10.0), "x")
+    tmp = tempfile.mkdtemp(prefix="c05c_")
+    out = {"error": None}
+    try:
+        with _Quiet():
+            ev = Evaluator.create(_run_cont, method="serial")
+            search = CBO(problem, ev, random_state=case["seed"], log_dir=tmp, verbose=0, surrogate_model=case["surrogate"],
+                         acq_func=case["acq"], kappa=0.0, xi=0.0, scheduler=_const_scheduler, n_points=500, n_initial_points=case["n_initial"])
+            res = search.search(max_evals=case["n_evals"])
+            out["x"] = [float(v) for v in res.sort_values("job_id")["p:x"].tolist()]
+            try:
+                ev.close()
+            except Exception:
+                pass
+    except Exception as e:
+        import traceback
+
+        out["error"] = f"{type(e).__name__}: {e}"
+        out["trace"] = traceback.format_exc()[-1500:]
+    finally:
+        shutil.rmtree(tmp, ignore_errors=True)
+    return out
+
+
+def _judge_cont(ck, case, obs):
+    ck.count(f"cont:{case['surrogate']}/{case['acq']}")
+    if obs["error"]:
+        ck.fail(f"C05|raises|CBO.search|{obs['error'].split(':')[0]},acq_func={case['acq']}", "search raised on a continuous monotone problem", case, obs)
+        return
+    late = sorted(obs["x"][-20:])
+    med = (late[9] + late[10]) / 2.0
+    share = sum(1 for v in late if v > CONT_HIGH) / len(late)
+    ck.count(f"cont:{case['acq']}:" + ("median>9.8" if med > 9.8 else "median>8" if med > 8 else "median<=8"))
+    if case["surrogate"] == "ET" and case["acq"] not in ("UCB", "UCBd"):
+        # calibrated on main: with the fully grown ET forest the improvement-based acquisitions end anywhere between 7.5 and 10
+        # (EI 8.1-10, PI 8.9-10, EId / PId 7.5-9.8): measured, not asserted.  RF: median >= 9.96 and >= 90 % above 9 in 150 runs.
+        return
+    if med <= CONT_MEDIAN or share < CONT_SHARE:
+        ck.fail(f"C05|late-proposals-not-at-the-maximiser|CBO.search|acq_func={case['acq']},surrogate={case['surrogate']}",
+                "on a continuous monotone problem the late proposals of an exploitation-only setting do not concentrate at the maximiser", case,
+                {"median_of_last_20": med, "share_above_%g" % CONT_HIGH: share, "proposals": [round(v, 3) for v in obs["x"]]})
+
+
+CONT_MEDIAN, CONT_HIGH, CONT_SHARE = 9.8, 9.0, 0.7
+
+
 # --------------------------------------------------------------------------- name maps / tell stream
 
 
@@ -1092,6 +1192,13 @@ def _judge_jobs(ck, d, names, jobs, obs_all):
         if nfit == 0:
             ck.case(case, nontrivial=True)
             ck.mismatch(case, {"what": "no surrogate fit was observed (spies saw nothing)", "fits": len(obs["fits"]), "acqs": len(obs["acqs"])})
+            if case.get("route") == "fit_surrogate" and len(case.get("fail", [])) < case["K"]:
+                # loading a checkpoint must make the next proposals model-based whatever its size; without a fit the proposal is a random point
+                nvalid = case["K"] - len(case.get("fail", []))
+                nip = int(case.get("n_initial_points", case["K"]))
+                ck.fail("C05|checkpoint-not-fitted|CBO.fit_surrogate|" + ("valid-rows<n_initial_points" if nvalid < nip else "valid-rows>=n_initial_points"),
+                        "after fit_surrogate(checkpoint) no surrogate was fitted: the next proposal is not model-based, let alone the best candidate", case,
+                        {"valid_rows": nvalid, "n_initial_points": nip, "proposal": obs.get("proposals"), "objectives": case["objs"], "failed": case.get("fail")})
             spans.append(None)
             continue
         spans.append((len(reqs), nfit))
@@ -1172,11 +1279,13 @@ def run(ck):
     nbase = ck.pick(110, 2400)
     nmono = ck.pick(12, 168)
     corpus = _load_corpus()
-    cases = [c for c in corpus if not c.get("mono")]
+    cases = [c for c in corpus if not c.get("mono") and not c.get("cont")]
     cases += [_gen_case(ck.rng, t) for t in range(nbase)]
     monos = [c for c in corpus if c.get("mono")] + [_monotone_case(ck.rng, t) for t in range(nmono)]
+    conts = [c for c in corpus if c.get("cont")] + [_cont_case(ck.rng, t) for t in range(ck.pick(6, 96))]
     # run the real searches before the Lean driver is started (fork-safety), then judge
     mono_obs = _map(_observe_mono_safe, monos, workers)
+    cont_obs = _map(_observe_cont, conts, workers)
     t0 = _t(ck, "monotone_runs", t0)
     jobs, obs_all = _observe_jobs(cases, workers)
     t0 = _t(ck, "candidate_runs", t0)
@@ -1189,6 +1298,9 @@ def run(ck):
         for case, obs in zip(monos, mono_obs):
             ck.case(case, nontrivial=True)
             _judge_mono(ck, case, obs, _eff_scaler(case, names))
+        for case, obs in zip(conts, cont_obs):
+            ck.case(case, nontrivial=True)
+            _judge_cont(ck, case, obs)
 
 
 def replay(ck, case):
@@ -1199,6 +1311,11 @@ def replay(ck, case):
             ck.case(case)
             _judge_mono(ck, case, obs, _eff_scaler(case, names))
             print("replay:", {"proposals": obs.get("a"), "error": obs.get("error")})
+        elif case.get("cont"):
+            obs = _observe_cont(case)
+            ck.case(case)
+            _judge_cont(ck, case, obs)
+            print("replay:", {"proposals": [round(v, 3) for v in obs.get("x", [])], "error": obs.get("error")})
         elif case.get("tell"):
             _tell_stream(ck, d)
         else:
